@@ -26,13 +26,19 @@ NX = 2
 # instances -> cards
 # ------------------------------------------------------------------------------------------
 
-def scale_table(rng, ntok=6, lo=1.5, hi=60.0):
-    """token -> linear scale (GeV), increasing; mu^2 tokens are the squares (as the code squares)."""
+def scale_table(rng, ntok=6, lo=1.5, hi=60.0, near=False):
+    """token -> linear scale (GeV), increasing; mu^2 tokens are the squares (as the code squares).
+
+    near=True makes one token a near-duplicate of its lower neighbour (relative 5e-8): two
+    distinct scales that np.isclose would call equal."""
     vals = sorted(rng.uniform(lo, hi) for _ in range(ntok))
     # keep them well separated so that np.isclose never merges two tokens
     for i in range(1, len(vals)):
         if vals[i] < vals[i - 1] * 1.05:
             vals[i] = vals[i - 1] * 1.05 + 0.01
+    if near:
+        j = rng.randrange(1, ntok)
+        vals[j] = vals[j - 1] * (1 + 5e-8)
     return {k + 1: float(v) for k, v in enumerate(vals)}
 
 
